@@ -1010,6 +1010,7 @@ def interp_case(ctx, B, A, M, split, tags, S=None, Acsr=None, api=True, onept_va
             Q0 = dense(IP.one_point_interpolation(Acsr, Cv if Cv.has_canonical_format else S, split, by_val=False))
             if P1.shape != P0.shape or not np.array_equal(P1, P0) or Q1.shape != Q0.shape or not np.array_equal(Q1, Q0):
                 viol('injection / one_point_interpolation on CSC input differ from the CSR result', routine='api_formats')
+            api_formats_models(ctx, B, Acsr, Cv if Cv.has_canonical_format else S, split, case0, layout, viol)
         except Exception as ex:
             viol(f'injection / one_point_interpolation on CSC input raised {type(ex).__name__}: {ex}', routine='api_formats')
 
@@ -1070,10 +1071,14 @@ def theta_case(ctx, B, A, split, theta, norm, tags, layout=None):
 # part B: BSR one-point / injection
 # ------------------------------------------------------------------------------------------------
 
-def bsr_case(ctx, A, M, split, bs, layout=None):
+def bsr_case(ctx, A, M, split, bs, layout=None, B=None):
     from pyamg.classical import interpolate as IP
     n = A.shape[0]
     rng = ctx.np_rng
+    own = B is None
+    if own:
+        B = Batch(ctx)
+    hs = enc_ints(split)
     Ab = sp.bsr_array(sp.kron(_csr(A), np.ones((bs, bs))).tobsr(blocksize=(bs, bs)))
     Ab.indptr, Ab.indices = _i32(Ab.indptr), _i32(Ab.indices)
     Ab = relayout(Ab, layout, 'A')
@@ -1087,6 +1092,8 @@ def bsr_case(ctx, A, M, split, bs, layout=None):
     ctx.feat('routine:api_injection_bsr')
     try:
         P = IP.injection_interpolation(fresh(Ab, layout, 'A'), split)
+        B.add('ext_c11x_inj(bsr)', f'ext_c11x_inj {_ain(Ab)} {hs}', lambda o, P=P: cmp_bsr_out(o, P), {**case0, 'routine': 'injection'},
+              _show_p(P))
         D = dense(P)
         want = np.zeros((n * bs, nc * bs))
         for i in range(n):
@@ -1102,6 +1109,14 @@ def bsr_case(ctx, A, M, split, bs, layout=None):
     Cb = relayout(_csr(np.where(M, vals, 0.0)), layout, 'S', 1)
     try:
         P = IP.one_point_interpolation(fresh(Ab, layout, 'A'), fresh(Cb, layout, 'S'), split)
+        B.add('ext_c11x_onept(bsr)', f'ext_c11x_onept {_ain(Ab)} {_hdr(Cb)} {hs} 0', lambda o, P=P: cmp_bsr_out(o, P),
+              {**case0, 'routine': 'onepoint', 'C': Cb.toarray().tolist()}, _show_p(P))
+        Pv = IP.one_point_interpolation(fresh(Ab, layout, 'A'), fresh(Cb, layout, 'S'), split, by_val=True)   # ignored for blocks
+        B.add('ext_c11x_onept(bsr,by_val)', f'ext_c11x_onept {_ain(Ab)} {_hdr(Cb)} {hs} 1', lambda o, P=Pv: cmp_bsr_out(o, P),
+              {**case0, 'routine': 'onepoint', 'by_val': True, 'C': Cb.toarray().tolist()}, _show_p(Pv))
+        if dense(Pv).shape != dense(P).shape or not np.array_equal(dense(Pv), dense(P)):
+            ctx.violation('one_point_interpolation(BSR, by_val=True) differs from by_val=False (blocks are interpolated by identity)',
+                          {**case0, 'routine': 'onepoint', 'by_val': True, 'C': Cb.toarray().tolist()})
         D = dense(P)
         Cd = Cb.toarray()
         e = None
@@ -1123,6 +1138,8 @@ def bsr_case(ctx, A, M, split, bs, layout=None):
             ctx.violation(f'one_point_interpolation(BSR): {e}', {**case0, 'routine': 'onepoint', 'C': Cd.tolist()})
     except Exception as ex:
         ctx.violation(f'one_point_interpolation(BSR) raised {type(ex).__name__}: {ex}', {**case0, 'routine': 'onepoint'})
+    if own:
+        B.flush()
 
 
 # ------------------------------------------------------------------------------------------------
@@ -1206,6 +1223,11 @@ def air_case(ctx, B, A, split, theta, norm, degree, tags, raw_mask=None, layout=
         overflow = raw(relayout(_csr(raw_mask.astype(float)), layout, 'S', 2), raw_mask, 'arbitrary pattern') or overflow
     if overflow:
         return
+    # ---- extension E49: the kernel with GMRES local solves vs the exact model row and the dense_GMRES model
+    try:
+        air_gmres_kernel(ctx, B, A, Acsr, C, M if np.array_equal(Mlib, M) else Mlib, split, cpts, degree, case0, nontriv)
+    except GuardError as ex:
+        ctx.violation(f'approx_ideal_restriction_pass2 (use_gmres): {ex}', {**case0, 'use_gmres': True})
     # ---- public function, CSR: direct and GMRES local solves
     for use_gmres, precond in ((False, True), (True, True), (True, False)):
         name = f'local_air(theta={theta}, norm={norm!r}, degree={degree}, use_gmres={use_gmres}, precondition={precond})'
@@ -1233,7 +1255,7 @@ def air_case(ctx, B, A, split, theta, norm, degree, tags, raw_mask=None, layout=
             ctx.violation(f'local_air(CSC input) raised {type(ex).__name__}: {ex}', {**case0, 'format': 'csc'})
 
 
-def air_bsr_case(ctx, A, split, theta, degree, bs, layout=None):
+def air_bsr_case(ctx, A, split, theta, degree, bs, layout=None, B=None):
     """block matrix: scalar pattern of A, random strictly dominant blocks; norm='abs' (max |entry| of the block)"""
     from pyamg.classical import interpolate as IP
     rng = ctx.np_rng
@@ -1267,6 +1289,15 @@ def air_bsr_case(ctx, A, split, theta, degree, bs, layout=None):
     case0 = {'kind': 'air_bsr', 'D': D.tolist(), 'split': split.tolist(), 'theta': theta, 'degree': degree, 'bs': bs, 'layout': layout}
     cpts = np.where(split == 1)[0]
     maxloc = max([len(air_neighbourhood(M, split, int(c), 2)) for c in cpts] + [0]) * bs
+    own = B is None
+    if own:
+        B = Batch(ctx)
+    try:
+        air_bsr_kernels(ctx, B, Ab, D, M, split, degree, bs, case0)
+    except GuardError as ex:
+        ctx.violation(f'block AIR kernels: {ex}', {**case0, 'raw': True})
+    if own:
+        B.flush()
     for use_gmres, precond in ((False, True), (True, False), (True, True)):
         name = f'local_air(BSR {bs}x{bs}, theta={theta}, degree={degree}, use_gmres={use_gmres}, precondition={precond})'
         ctx.case(key=_key('air_bsr', D.tobytes(), split.tobytes(), theta, degree, use_gmres, precond), nontrivial=bool(0 < len(cpts) < n))
@@ -1279,6 +1310,237 @@ def air_bsr_case(ctx, A, split, theta, degree, bs, layout=None):
                 ctx.violation(f'{name}: {e}', {**case0, 'use_gmres': use_gmres, 'precondition': precond})
         except Exception as ex:
             ctx.violation(f'{name} raised {type(ex).__name__}: {ex}', {**case0, 'use_gmres': use_gmres, 'precondition': precond})
+
+
+# ------------------------------------------------------------------------------------------------
+# extension E49: block AIR kernel, BSR / CSC wrappers, dense_GMRES -- Lean models (ops ext_c11x_*)
+# ------------------------------------------------------------------------------------------------
+
+GM_TOL = 1e-9            # dense_GMRES model (binary64, same operations up to b/normb vs (1/normb)*b) vs the code
+
+
+def _bits(x):
+    x = np.ascontiguousarray(np.asarray(x, dtype=np.float64))
+    return ','.join(str(int(v)) for v in x.view(np.uint64)) if x.size else '-'
+
+
+def _unbits(tok):
+    if tok in ('-', ''):
+        return np.zeros(0)
+    return np.array([int(t) for t in tok.split(',')], dtype=np.uint64).view(np.float64)
+
+
+def _ain(X):
+    """the <A...> tokens of ext_c11x_inj / ext_c11x_onept: the arrays exactly as stored"""
+    if X.format == 'bsr':
+        return (f'bsr {X.shape[0]} {X.shape[1]} {X.blocksize[0]} {X.blocksize[1]} {enc_ints(X.indptr)} {enc_ints(X.indices)} '
+                f'{enc_rats(np.asarray(X.data).ravel())}')
+    return f'{X.format} {X.shape[0]} {X.shape[1]} {enc_ints(X.indptr)} {enc_ints(X.indices)} {enc_rats(X.data)}'
+
+
+def cmp_bsr_out(reply, P):
+    """reply 'rows,cols,bs;indptr;indices;data' of apiInjection / apiOnePoint vs the SciPy matrix the wrapper returned"""
+    parts = reply.split(';')
+    bs = int(P.blocksize[0]) if P.format == 'bsr' else 1
+    nnz = int(P.indptr[-1])
+    want = [f'{P.shape[0]},{P.shape[1]},{bs}', enc_ints(P.indptr), enc_ints(P.indices[:nnz])]
+    if len(parts) != 4 or parts[:3] != want:
+        return False
+    toks = [] if parts[3] == '-' else parts[3].split(',')
+    data = np.asarray(P.data).ravel()[:nnz * bs * bs]
+    return len(toks) == len(data) and all(val_ok(t, x) for t, x in zip(toks, data))
+
+
+def _show_p(P):
+    nnz = int(P.indptr[-1])
+    return f'{P.shape};{enc_ints(P.indptr)};{enc_ints(P.indices[:nnz])};{np.asarray(P.data).ravel().tolist()}'[:3000]
+
+
+def cmp_brows(reply, rows):
+    """reply of ext_c11x_bair2 vs the block rows [(col, flat block)] of the kernel"""
+    if reply == 'singular':
+        return False
+    m = [] if reply == 'none' else [[] if r == '-' else r.split(',') for r in reply.split(';')]
+    if len(m) != len(rows):
+        return False
+    for mr, ir in zip(m, rows):
+        if len(mr) != len(ir):
+            return False
+        for ent, (c, blk) in zip(mr, ir):
+            col, vals = ent.split(':')
+            toks = vals.split('|')
+            if int(col) != c or len(toks) != len(blk) or not all(val_ok(t, x) for t, x in zip(toks, blk)):
+                return False
+    return True
+
+
+def cmp_gmres(reply, x):
+    if reply == 'bad-size':
+        return False
+    m = _unbits(reply)
+    if len(m) != len(x) or not np.all(np.isfinite(m)) or not np.all(np.isfinite(x)):
+        return False
+    d = np.abs(m - x) / (1 + np.abs(x))
+    if len(d):
+        _ERR[0] = max(_ERR[0], float(min(d.max(), TOL)))
+    return bool(np.all(d <= GM_TOL))
+
+
+def gmres_line(Aloc, b, maxiter, pc):
+    """Aloc[i, j] = the entry dense_GMRES reads as A[col_major(i, j, n)]"""
+    return f'ext_c11x_gmres {";".join(_bits(r) for r in Aloc)} {_bits(b)} {int(maxiter)} {int(pc)}'
+
+
+def air_gmres_kernel(ctx, B, A, Acsr, C, Mm, split, cpts, degree, case0, nontriv):
+    """scalar kernel with use_gmres = 1: every row vs the exact model row (full length) and, for some C-points, the local
+    solve vs the dense_GMRES model on the local system (also truncated, maxiter < local size)"""
+    from pyamg import amg_core
+    n = A.shape[0]
+    nc = len(cpts)
+    rng = ctx.np_rng
+    rp = np.full(nc + 1, -7, dtype=np.int32)
+    amg_core.approx_ideal_restriction_pass1(rp, C.indptr, C.indices, cpts, split, degree)
+    nnz = max(int(rp[-1]), 0)
+    sizes = [int(rp[r + 1] - rp[r] - 1) for r in range(nc)]
+    full = max(sizes + [0]) + 1
+    for pc in (1, 0):
+        for maxiter in ((0, full, int(rng.integers(1, 3))) if pc else (full,)):
+            exact = maxiter == 0 or maxiter >= full - 1
+            ctx.case(key=_key('air_k_gmres', A.tobytes(), split.tobytes(), degree, C.indptr.tobytes(), C.indices.tobytes(), pc, maxiter),
+                     nontrivial=nontriv)
+            ctx.feat('routine:k_air_gmres' + ('' if exact else '_truncated'))
+            slack = nc * (n + 1) + 1
+            rj = np.full(nnz + slack, -1, dtype=np.int32)
+            rx = np.concatenate([np.zeros(nnz), nan_f(slack)])
+            amg_core.approx_ideal_restriction_pass2(rp, rj, rx, Acsr.indptr, Acsr.indices, Acsr.data, C.indptr, C.indices, C.data,
+                                                    cpts, split, degree, 1, maxiter, pc)
+            cs = {**case0, 'use_gmres': True, 'precondition': bool(pc), 'maxiter': int(maxiter)}
+            if np.any(rj[nnz:] != -1) or not np.all(np.isnan(rx[nnz:])):
+                ctx.violation('approx_ideal_restriction_pass2 (use_gmres) writes behind the entries sized by pass 1', cs)
+                return
+            rows = csr_rows(nc, rp, rj[:nnz], rx[:nnz])
+            if exact:
+                B.add('c11_air2(gmres)', f'c11_air2 {_hdr(Acsr)} {_pat0(C)} {enc_ints(cpts)} {enc_ints(split)} {degree}',
+                      lambda o, r=rows: cmp_rows(o, r, False), cs, str(rows)[:3000])
+                Rd = np.zeros((nc, n))
+                for r, row in enumerate(rows):
+                    for c, v in row:
+                        if 0 <= c < n:
+                            Rd[r, c] += v
+                e = judge_air(A, Mm, split, Rd, degree)
+                if e:
+                    ctx.violation(f'approx_ideal_restriction_pass2 (use_gmres=1, precondition={pc}, maxiter={maxiter}): {e}', cs)
+            # the local solve itself, on up to three rows
+            cand = [r for r in range(nc) if sizes[r] > 0]
+            for r in ([cand[i] for i in rng.permutation(len(cand))[:3]] if cand else []):
+                nf = [c for c, _ in rows[r][:-1]]
+                Aloc = A[np.ix_(nf, nf)].T
+                b = -A[int(cpts[r]), nf]
+                x = np.array([v for _, v in rows[r][:-1]])
+                B.add('ext_c11x_gmres', gmres_line(Aloc, b, maxiter, pc), lambda o, x=x: cmp_gmres(o, x),
+                      {**cs, 'row': int(r)}, x.tolist())
+
+
+def air_bsr_kernels(ctx, B, Ab, D, M, split, degree, bs, case0):
+    """block_approx_ideal_restriction_pass2 (QR and GMRES local solves) vs the model C11XB.bairPass2; the assembled local
+    system of the model vs D[N, N]; the GMRES local solves vs the dense_GMRES model"""
+    from pyamg import amg_core
+    from pyamg.strength import classical_strength_of_connection
+    rng = ctx.np_rng
+    n = M.shape[0]
+    cpts = _i32(np.where(split == 1)[0])
+    nc = len(cpts)
+    theta = case0['theta']
+    C = classical_strength_of_connection(A=Ab.copy(), theta=theta, block=True, norm='abs')
+    C = gen.csr_from_arrays(n, C.indptr, C.indices, C.data)
+    Mlib = np.zeros((n, n), dtype=bool)
+    for i in range(n):
+        Mlib[i, C.indices[C.indptr[i]:C.indptr[i + 1]]] = True
+    if not np.array_equal(Mlib, M):
+        ctx.feat('strength_oracle_differs_from_library')
+    nontriv = bool(0 < nc < n and any(air_neighbourhood(Mlib, split, int(c), degree) for c in cpts))
+    rp = np.full(nc + 1, -7, dtype=np.int32)
+    amg_core.approx_ideal_restriction_pass1(rp, C.indptr, C.indices, cpts, split, degree)
+    B.add('c11_air1(bsr)', f'c11_air1 {_pat(C)} {enc_ints(cpts)} {enc_ints(split)} {degree}', lambda o, rp=rp: o == enc_ints(rp),
+          case0, enc_ints(rp))
+    nnz = max(int(rp[-1]), 0)
+    sizes = [int(rp[r + 1] - rp[r] - 1) for r in range(nc)]
+    full = max(sizes + [0]) * bs + 1
+    b2 = bs * bs
+    ax = np.ascontiguousarray(np.asarray(Ab.data, dtype=float)).ravel()
+    hdrA = f'{bs} {enc_ints(Ab.indptr)} {enc_ints(Ab.indices)} {enc_rats(ax)}'
+    line = f'ext_c11x_bair2 {enc_rat(EPS)} {hdrA} {_pat(C)} {enc_ints(cpts)} {enc_ints(split)} {degree}'
+    for ug, pc, maxiter in ((0, 1, 10), (1, 1, full), (1, 0, 0), (1, 1, int(rng.integers(1, 3)))):
+        exact = (not ug) or maxiter == 0 or maxiter >= full - 1
+        ctx.case(key=_key('bair_k', D.tobytes(), split.tobytes(), theta, degree, bs, ug, pc, maxiter, Ab.indices.tobytes()),
+                 nontrivial=nontriv)
+        ctx.feat('routine:k_bair' + ('_gmres' if ug else '') + ('' if exact else '_truncated'))
+        slack = nc * (n + 1) + 1
+        rj = np.full(nnz + slack, -1, dtype=np.int32)
+        rx = np.concatenate([np.zeros(nnz * b2), nan_f(slack * b2)])
+        amg_core.block_approx_ideal_restriction_pass2(rp, rj, rx, Ab.indptr, Ab.indices, ax, C.indptr, C.indices, C.data, cpts,
+                                                      split, bs, degree, ug, maxiter, pc)
+        cs = {**case0, 'use_gmres': bool(ug), 'precondition': bool(pc), 'maxiter': int(maxiter), 'raw': True}
+        if np.any(rj[nnz:] != -1) or not np.all(np.isnan(rx[nnz * b2:])):
+            ctx.violation('block_approx_ideal_restriction_pass2 writes behind the entries sized by approx_ideal_restriction_pass1', cs)
+            return
+        rows = [[(int(rj[k]), rx[k * b2:(k + 1) * b2].copy()) for k in range(int(rp[r]), int(rp[r + 1]))] for r in range(nc)]
+        if exact:
+            B.add('ext_c11x_bair2', line, lambda o, r=rows: cmp_brows(o, r), cs, str([[(c, b.tolist()) for c, b in r] for r in rows])[:3000])
+            Rd = np.zeros((nc * bs, n * bs))
+            for r, row in enumerate(rows):
+                for c, blk in row:
+                    if 0 <= c < n:
+                        Rd[r * bs:(r + 1) * bs, c * bs:(c + 1) * bs] += blk.reshape(bs, bs)
+            e = judge_air(D, Mlib, split, Rd, degree, bs=bs)
+            if e:
+                ctx.violation(f'block_approx_ideal_restriction_pass2 (use_gmres={ug}, precondition={pc}, maxiter={maxiter}): {e}', cs)
+        cand = [r for r in range(nc) if sizes[r] > 0]
+        pick = [cand[i] for i in rng.permutation(len(cand))[:2]] if cand else []
+        for r in pick:
+            nf = [c for c, _ in rows[r][:-1]]
+            idx = [f * bs + t for f in nf for t in range(bs)]
+            Aloc = D[np.ix_(idx, idx)].T
+            c0 = int(cpts[r])
+            if not ug:
+                # the model's assembled local system (Rat) is D[N, N] read column-major, and the bs right-hand sides
+                wantA = Aloc.T.ravel()
+                wantb = np.concatenate([-D[c0 * bs + t, idx] for t in range(bs)])
+                B.add('ext_c11x_bair_sys', f'ext_c11x_bair_sys {hdrA} {c0} {enc_ints(nf)}',
+                      lambda o, a=wantA, b=wantb: o == f'{enc_rats(a)};{enc_rats(b)}', {**cs, 'row': int(r)},
+                      f'{enc_rats(wantA)};{enc_rats(wantb)}'[:3000])
+            else:
+                for t in range(bs):
+                    b = -D[c0 * bs + t, idx]
+                    x = np.array([blk[t * bs + cc] for _, blk in rows[r][:-1] for cc in range(bs)])
+                    B.add('ext_c11x_gmres(bsr)', gmres_line(Aloc, b, maxiter, pc), lambda o, x=x: cmp_gmres(o, x),
+                          {**cs, 'row': int(r), 'block_row': t}, x.tolist())
+
+
+def api_formats_models(ctx, B, Acsr, Cgiven, split, case0, layout, viol):
+    """injection / one_point on CSC and CSR input vs the composed wrapper models C11XA.apiInjection / apiOnePoint (the CSC
+    input goes through the model of csc_tocsr), and the dense one-point oracle on the by_val result of the CSC path"""
+    from pyamg.classical import interpolate as IP
+    n = Acsr.shape[0]
+    Acsc = sp.csc_array(Acsr)
+    Acsc.indptr, Acsc.indices = _i32(Acsc.indptr), _i32(Acsc.indices)
+    hs = enc_ints(split)
+    chdr = _hdr(Cgiven)
+    for X in (Acsc, Acsr):
+        fmt = X.format
+        P = IP.injection_interpolation(X.copy(), split)
+        B.add(f'ext_c11x_inj({fmt})', f'ext_c11x_inj {_ain(X)} {hs}', lambda o, P=P: cmp_bsr_out(o, P), {**case0, 'format': fmt},
+              _show_p(P))
+        for by_val in (False, True):
+            P = IP.one_point_interpolation(X.copy(), fresh(Cgiven, layout, 'S'), split, by_val=by_val)
+            B.add(f'ext_c11x_onept({fmt})', f'ext_c11x_onept {_ain(X)} {chdr} {hs} {int(by_val)}', lambda o, P=P: cmp_bsr_out(o, P),
+                  {**case0, 'format': fmt, 'by_val': by_val}, _show_p(P))
+            if fmt == 'csc':
+                rows = csr_rows(n, P.indptr, P.indices, P.data)
+                Cd = (Acsr if by_val else Cgiven).toarray()
+                e = judge_onepoint(Cd, Cd != 0, split, rows, by_val)
+                if e:
+                    viol(f'one_point_interpolation(CSC input, by_val={by_val}): {e}', routine='api_formats', by_val=by_val)
 
 
 # ------------------------------------------------------------------------------------------------
@@ -1376,7 +1638,7 @@ def part_interp(ctx, n_cases, nmax, n_raw, n_theta, n_bsr):
         A, kind = gen_matrix(rng, min(nmax, 10))
         M, _ = gen_strength(rng, A)
         split, _ = gen_split(rng, A, M)
-        bsr_case(ctx, A, M, split, int(rng.integers(2, 4)), layout=gen_layout(rng))
+        bsr_case(ctx, A, M, split, int(rng.integers(2, 4)), layout=gen_layout(rng), B=B)
     B.flush()
 
 
@@ -1399,7 +1661,7 @@ def part_air(ctx, n_cases, nmax, n_bsr):
         A, _ = gen_air_matrix(rng, min(nmax, 8))
         n = A.shape[0]
         air_bsr_case(ctx, A, rng.random(n) < 0.5, float(rng.choice((0.0, 0.25, 0.5))), 1 + t % 2, int(rng.integers(2, 4)),
-                     layout=gen_layout(rng))
+                     layout=gen_layout(rng), B=B)
     B.flush()
 
 
